@@ -173,7 +173,7 @@ func vpAnswers(resp uint16) uint16 { return resp - 1 }
 
 //vp:property C01 C02 C16 C03 C10
 //vp:set bodymax 10 14
-//vp:set budget 40 600
+//vp:set budget 300 900
 //vp:set maxalloc 40 40
 //vp:bounds ONE packet (type: all 2^16 values; body: every length 0..bodymax (10 quick, 14 thorough) with symbolic bytes; inner length fields symbolic up to carried+4) from EVERY protocol phase 0..5, every capability setting, every callback present/absent and accepting/refusing, dial succeeding/failing; histories of any length follow by induction over the loop invariant (paper argument)
 //vp:assume TokenAuth implies a cookie callback is wired (checked separately on main())
@@ -356,7 +356,7 @@ func VP_C01_step() {
 
 //vp:property C01 C16
 //vp:set k 5 7
-//vp:set budget 60 900
+//vp:set budget 300 1200
 //vp:set maxalloc 24 24
 //vp:bounds K packets (quick 4, thorough 6) from the initial state; types drawn from the 8 classes {1,4,6,8,0xA,0xD,0x10,other}; bodies: fixed well-formed skeletons with symbolic fields (handshake and tunnel capability bytes, port, server name 1 UTF-16 unit, data byte), callbacks symbolic; every response checked against the documented layout
 //vp:reach dialed relayed
